@@ -31,6 +31,7 @@ def build(F):
         d1.meta['n'] = 3
     if 'derived' in F:
         d1['g'] = d1.id['x'] * 2 + d1.id['y']
+        d1['h'] = d1.id['x'] + 100                  # computed from a single attribute of the same dataset
     dc = DataCollection([d1, d2, d3])
     if 'extlink' in F:
         dc.add_link(ComponentLink([d1.id['x']], d3.id['p'], using=identity))
@@ -72,7 +73,7 @@ def observe(dc, F):
     from glue.core.subset import RangeSubsetState
     by = dict((d.label, d) for d in dc)
     o = {}
-    o['values'] = [[d.label, [[c.label, _arr(d[c])] for c in d.main_components if c.label != 'g']] for d in dc]
+    o['values'] = [[d.label, [[c.label, _arr(d[c])] for c in d.main_components if c.label not in ('g', 'h')]] for d in dc]
     # structure of the link bookkeeping: links between datasets only among the external links, no link listed twice
     def internal(link):
         try:
@@ -92,7 +93,7 @@ def observe(dc, F):
     if 'uuid' in F:
         o['uuid'] = [d.uuid for d in dc]
     if 'derived' in F:
-        o['derived'] = _try(lambda: [[c.label for c in d1.derived_components if c.label == 'g'], _arr(d1['g'])])
+        o['derived'] = _try(lambda: [[c.label for c in d1.derived_components if c.label in ('g', 'h')], _arr(d1['g']), _try(lambda: _arr(d1['h']))])
     if 'extlink' in F:
         o['extlink'] = _try(lambda: _arr(d1[d3.id['p']]))
     if 'helper' in F:
